@@ -24,21 +24,21 @@ RECORD_ARC = re.compile(r"^(std::option::Option<)?std::sync::Arc<foyer_memory::r
 ALLOW = {
     ("foyer_memory::eviction::Eviction::clear", "tmp/pop"):
         "default Eviction::clear pops every record while RawCacheShard::clear holds them all in its `records` vector (drained from the index just before)",
-    ("<foyer_memory::eviction::lfu::Lfu<K, V, P> as foyer_memory::eviction::Eviction>::clear", "record/pop"):
+    ("<foyer_memory::eviction::lfu::Lfu<K, V, P> as foyer_memory::eviction::Eviction>::clear", "tmp/pop"):
         "same as the default clear: RawCacheShard::clear's `records` vector co-owns every popped record",
     ("<foyer_memory::eviction::lru::Lru<K, V, P> as foyer_memory::eviction::Eviction>::clear", "tmp/pop"):
         "same as the default clear: RawCacheShard::clear's `records` vector co-owns every popped record",
-    ("<foyer_memory::eviction::lru::Lru<K, V, P> as foyer_memory::eviction::Eviction>::clear", "record/pop_front"):
+    ("<foyer_memory::eviction::lru::Lru<K, V, P> as foyer_memory::eviction::Eviction>::clear", "tmp/pop_front"):
         "pinned records drained from pin_list are still in the shard index snapshot `records` held by RawCacheShard::clear (and by the handles that pinned them)",
     ("<foyer_memory::eviction::sieve::Sieve<K, V, P> as foyer_memory::eviction::Eviction>::pop", "self.hand/field"):
         "the old hand is a clone_pointer of a node that is still linked in the queue (the queue owns it) or is the victim being returned",
     ("<foyer_memory::eviction::sieve::Sieve<K, V, P> as foyer_memory::eviction::Eviction>::remove", "self.hand/field"):
         "guarded by Arc::ptr_eq(hand, record): the caller's `record` borrow co-owns the allocation",
-    ("foyer_memory::raw::RawCacheShard::evict", "e/remove"):
+    ("foyer_memory::raw::RawCacheShard::evict", "tmp/remove"):
         "`e` is the same allocation as `evicted` (asserted ptr-equal two statements earlier) and `evicted` is moved into `garbages`",
-    ("foyer_memory::raw::RawCacheShard::emplace", "record/param"):
+    ("foyer_memory::raw::RawCacheShard::emplace", "param2/param"):
         "the parameter's clones live in the index, the eviction container and in the caller (insert_inner keeps `record`)",
-    ("foyer_memory::raw::RawCacheShard::emplace", "notifiers/param"):
+    ("foyer_memory::raw::RawCacheShard::emplace", "param4/param"):
         "the overwritten vector is the fresh empty `vec![]` of insert_inner; a oneshot Sender<T> owns no T",
     ("foyer_storage::keeper::Keeper::insert", "tmp/get_mut"):
         "the replaced piece is co-owned by the PieceRef of the earlier enqueue that registered it (still in the write queue)",
@@ -51,17 +51,15 @@ _FIXTURE = False
 
 
 def _role(fn, term):
+    """name-free description of what is dropped: parameter position, field path, or the producer of a temporary"""
     pl = term.place
-    name = fn.local_name(pl.local)
+    base = "self" if pl.local == 1 and fn.argc >= 1 else ("param%d" % pl.local if 1 <= pl.local <= fn.argc else "tmp")
     if pl.proj and pl.fields():
-        f = pl.fields()
-        nm = (name or "tmp") + ("." + ".".join(f) if f else "")
-        return nm + "/field"
+        return base + "." + ".".join(pl.fields()) + "/field"
     if 1 <= pl.local <= fn.argc:
-        return (name or "arg%d" % pl.local) + "/param"
+        return "param%d/param" % pl.local
     sl = backslice(fn, mir.Place({"l": pl.local, "p": []}), "prov")
     prod = "?"
-    # the last non-transparent producer
     for b, t in sl.calls:
         if t.callee and not mir.is_transparent(t.callee):
             prod = t.callee.rsplit("::", 1)[-1]
@@ -69,7 +67,7 @@ def _role(fn, term):
         for b, t in sl.calls:
             if t.callee:
                 prod = t.callee.rsplit("::", 1)[-1]
-    return (name or "tmp") + "/" + prod
+    return "tmp/" + prod
 
 
 def _kv_owner(glue):
@@ -185,7 +183,8 @@ def no_user_drop_under_lock(r, F, A=None):
         owning = [t for t in s.detail if locks.USER_TYPE_TEXT.search(t) and not locks.GUARD_RX.search(t)]
         callee = s.term.callee.rsplit("::", 1)[-1]
         a = s.term.args[0]
-        nm = s.fn.local_name(a.place.local) or next((s.fn.local_name(l) for l in backslice(s.fn, a, "prov").locals if s.fn.local_name(l)), None) or "tmp"
+        root = next((l for l in sorted(backslice(s.fn, a, "prov").locals) if 1 <= l <= s.fn.argc), None)
+        nm = ("param%d" % root) if root else "local"
         role = "call:%s(%s)" % (callee, nm)
         if not owning:
             continue
